@@ -73,6 +73,67 @@ func sameSSAExpr(a, b ssa.Value, depth int) bool {
 	return false
 }
 
+// recursionInvariant: the value is computed from constants and from parameters that every recursive call passes on unchanged: it
+// has the same value in every repetition, so a return under it skips the fix-point as a whole and cannot cut it short
+func recursionInvariant(v ssa.Value, f *ssa.Function, recs []ssa.CallInstruction, depth int) bool {
+	if depth > 6 {
+		return false
+	}
+	switch x := v.(type) {
+	case *ssa.Const:
+		return true
+	case *ssa.Parameter:
+		i := paramIndex(f, x)
+		if i < 0 {
+			return false
+		}
+		for _, rc := range recs {
+			args := rc.Common().Args
+			if i >= len(args) || args[i] != ssa.Value(x) {
+				return false
+			}
+		}
+		return true
+	case *ssa.BinOp:
+		return recursionInvariant(x.X, f, recs, depth+1) && recursionInvariant(x.Y, f, recs, depth+1)
+	case *ssa.UnOp:
+		if x.Op == token.NOT || x.Op == token.SUB {
+			return recursionInvariant(x.X, f, recs, depth+1)
+		}
+	case *ssa.Convert:
+		return recursionInvariant(x.X, f, recs, depth+1)
+	}
+	return false
+}
+
+// definedOutside: the value is computed from constants and values defined outside the given loop body
+func definedOutside(v ssa.Value, body map[*ssa.BasicBlock]bool, depth int) bool {
+	if depth > 6 {
+		return false
+	}
+	switch x := v.(type) {
+	case *ssa.Const, *ssa.Parameter, *ssa.FreeVar:
+		return true
+	case *ssa.BinOp:
+		if !body[x.Block()] {
+			return true
+		}
+		return definedOutside(x.X, body, depth+1) && definedOutside(x.Y, body, depth+1)
+	case *ssa.UnOp:
+		if !body[x.Block()] {
+			return true
+		}
+		if x.Op == token.NOT || x.Op == token.SUB {
+			return definedOutside(x.X, body, depth+1)
+		}
+		return false
+	}
+	if in, ok := v.(ssa.Instruction); ok && !body[in.Block()] {
+		return true
+	}
+	return false
+}
+
 // progCell: a coordinate cell of the fix-point, `m[k]` of a map or `s[i]` of a slice
 type progCell struct{ X, Index ssa.Value }
 
@@ -307,7 +368,7 @@ func runProg1(m *Model, r *RuleResult) {
 							if p := isBoolPhi(d.If.Cond); p != nil && p == flag {
 								okRet = true // the branch not taken by the recursive call
 							}
-							if !isCountOrNilTest(d.If.Cond, 0) && isBoolPhi(d.If.Cond) == nil {
+							if !isCountOrNilTest(d.If.Cond, 0) && isBoolPhi(d.If.Cond) == nil && !recursionInvariant(d.If.Cond, f, recs, 0) {
 								conds = append(conds, d.If.Cond.String()+" at "+m.Pos(d.If.Cond.Pos()))
 							}
 						}
@@ -327,6 +388,9 @@ func runProg1(m *Model, r *RuleResult) {
 							}
 							if isIf && isCountOrNilTest(iff.Cond, 0) {
 								continue
+							}
+							if isIf && definedOutside(iff.Cond, rp.body, 0) {
+								continue // the same answer in every repetition: it skips the fix-point as a whole, it does not cut it short
 							}
 							if _, isPanic := sc.Instrs[len(sc.Instrs)-1].(*ssa.Panic); isPanic {
 								continue
